@@ -5,6 +5,7 @@ package anytype
 // explored path is replayed natively and every observation must agree byte for byte.
 
 import (
+	"bytes"
 	"errors"
 	"fmt"
 	"math"
@@ -12,6 +13,8 @@ import (
 	"sort"
 	"strconv"
 	"strings"
+	"unicode"
+	"unicode/utf8"
 )
 
 func H_SELF_fmt() {
@@ -108,6 +111,77 @@ func H_SELF_reflect() {
 				verifObserve("elem", rv.Index(0).Interface(), int(rv.Index(0).Kind()), int(rv.Index(0).Elem().Kind()))
 			}
 		}
+	}
+	verifReach("end")
+}
+
+// a sweep over standard-library helpers a refactoring may reach for, on short symbolic strings
+func H_SELF_stdlib_strings() {
+	s := hAscii(2)
+	t := hAscii(1)
+	c := t[0]
+	switch nondetIntRange(0, 5) {
+	case 0:
+		verifObserve("idx", strings.Index(s, t), strings.IndexByte(s, c), strings.IndexAny(s, ".#"), strings.IndexRune(s, rune(c)), strings.LastIndex(s, t), strings.LastIndexByte(s, c))
+		verifObserve("has", strings.Contains(s, t), strings.ContainsAny(s, ".eE"), strings.ContainsRune(s, 'e'), strings.HasPrefix(s, t), strings.HasSuffix(s, t), strings.Count(s, t), strings.Compare(s, t), strings.EqualFold(s, t))
+	case 1:
+		verifObserve("trim", strings.TrimSpace(" "+s+"\n"), strings.TrimLeft(s, ". "), strings.TrimRight(s, "# "), strings.Trim(s, "\""), strings.TrimPrefix(s, t), strings.TrimSuffix(s, t))
+		verifObserve("trimf", strings.TrimLeftFunc(s, unicode.IsSpace), strings.TrimFunc(s, unicode.IsDigit), strings.IndexFunc(s, unicode.IsSpace))
+	case 2:
+		verifObserve("split", len(strings.Split(s, t)), len(strings.SplitN(s, t, 2)), len(strings.Fields(s+" "+t)), strings.Join([]string{s, t, s}, ","), strings.Repeat(t, 3))
+		a, b, ok := strings.Cut(s, t)
+		verifObserve("cut", a, b, ok)
+	case 3:
+		verifObserve("repl", strings.Replace(s, t, "xy", 1), strings.ReplaceAll(s, t, ""), strings.ToUpper(s), strings.ToLower(s), strings.Map(func(r rune) rune { return r + 1 }, s), strings.Title(s))
+		var sb strings.Builder
+		sb.Grow(8)
+		sb.WriteString(s)
+		sb.WriteByte(c)
+		sb.WriteRune('é')
+		verifObserve("sb", sb.String(), sb.Len())
+	case 4:
+		var bb bytes.Buffer
+		bb.WriteString(s)
+		bb.WriteByte(c)
+		bb.Write([]byte(t))
+		bb.WriteRune('ß')
+		verifObserve("bb", bb.String(), bb.Len(), bytes.Equal([]byte(s), []byte(t)), bytes.IndexByte([]byte(s), c), bytes.Contains([]byte(s), []byte(t)), string(bytes.TrimSpace([]byte(" "+s))))
+		verifObserve("utf8", utf8.RuneCountInString(s), utf8.ValidString(s), utf8.RuneLen(rune(c)), utf8.FullRuneInString(s))
+		r, n := utf8.DecodeLastRuneInString(s)
+		verifObserve("last", r, n, string(utf8.AppendRune(nil, rune(c)+200)))
+	default:
+		verifObserve("uni", unicode.IsSpace(rune(c)), unicode.IsDigit(rune(c)), unicode.IsLetter(rune(c)), unicode.IsUpper(rune(c)), unicode.IsControl(rune(c)), unicode.IsPrint(rune(c)), unicode.ToUpper(rune(c)), unicode.IsPunct(rune(c)))
+	}
+	verifReach("end")
+}
+
+func H_SELF_stdlib_numbers() {
+	s := hAscii(2)
+	n := nondetInt()
+	verifAssume(verifAnd(n > -5000, n < 5000))
+	switch nondetIntRange(0, 3) {
+	case 0:
+		a, err := strconv.Atoi(s)
+		verifObserve("atoi", a, err == nil)
+		u, err2 := strconv.ParseUint(s, 16, 16)
+		verifObserve("pu", u, err2 == nil)
+		b, err3 := strconv.ParseBool(s)
+		verifObserve("pb", b, err3 == nil)
+	case 1:
+		verifObserve("fmt", strconv.Itoa(n), strconv.FormatInt(int64(n), 10), string(strconv.AppendInt([]byte("x"), int64(n), 10)), strconv.FormatBool(n > 0), string(strconv.AppendBool(nil, n > 3)))
+		verifObserve("q", strconv.Quote(s), string(strconv.AppendQuote([]byte("k"), s)))
+	case 2:
+		xs := []int{n, 3, -n, 7}
+		sort.Ints(xs)
+		ss := []string{s, "m", "a" + s}
+		sort.Strings(ss)
+		verifObserve("sort", xs[0], xs[3], ss[0], ss[2], sort.SearchInts(xs, 3), sort.SearchStrings(ss, "m"), sort.IsSorted(sort.IntSlice(xs)))
+		sort.Sort(sort.Reverse(sort.StringSlice(ss)))
+		verifObserve("rev", ss[0], ss[2])
+	default:
+		e := errors.New("boom " + s)
+		w := fmt.Errorf("ctx: %w", e)
+		verifObserve("err", e.Error(), w.Error(), errors.Is(w, e), errors.Unwrap(w) == e, fmt.Sprint(s, n), fmt.Sprintln(n))
 	}
 	verifReach("end")
 }
